@@ -18,6 +18,25 @@ CHECKS = {
              '(ExtrOcamlBasic only) + driver; the regex structure semantics Regex/Re.v is tested against CPython '
              're, not proved equal to it. Print Assumptions: closed under the global context.',
         design='7/C01', technique='Coq proof (induction + MW lemma) over regenerated rule table; model/impl differential lexing'),
+    'C02': dict(
+        text='Coq proof that parse() of the model is text-preserving for EVERY text: C02_roundtrip (input = join of str(stmt) '
+             '++ a tail of whitespace-typed tokens), C02_splitter_partition (for any level function), C02_group_text and '
+             'group_good: each of the 25 grouping passes and both generic drivers preserve the leaf sequence, by induction over '
+             'their loops and over the tree. The hand-written splitter/grouping model is tied to the code by comparing complete '
+             'trees of model and implementation after every pass; _change_splitlevel, terminator test and EOS types are '
+             'translated from the source on every run.',
+        note='Trusted: Coq kernel, translators, extraction, the stage-wise correspondence harness; the grouping loops are '
+             'modelled by hand (tested against the code, not translated). Premise parse=Ok (totality is C07).',
+        design='7/C02', technique='Coq proof (operation invariant over all passes) + stage-wise model/impl tree correspondence'),
+    'C03': dict(
+        text='Coq proof, for EVERY text, that the leaves of parse() are the lexer tokens of the split statements (same values; '
+             'types equal or re-typed to Operator) and that every group caches its current text (C03_leaves_and_cached, '
+             'C03_every_pass after each pass prefix), plus the offset-lookup theorem C03_at_offset. Parent pointers, '
+             'non-emptiness and the sibling/ancestry helpers are checked on every node of every generated tree by a direct '
+             'oracle on the implementation (partial: no theorem yet for those parts).',
+        note='Partial: the pure tree model has no object identity, so parent references/non-emptiness/navigation are decided by '
+             'exploration (oracle over all nodes), not by theorem. Trusted base as C02.',
+        design='7/C03', technique='Coq proof (leaf/cached invariants over all passes) + tree correspondence + per-node oracle'),
 }
 
 NOT_YET = {}
